@@ -161,6 +161,34 @@ def w17(rep, wd, dims):
     return len(index)
 
 
+def element_actions(mod):
+    """{view class: [names of the call operators of the per-element actions]}: for every std::for_each called from a view class's serialize, the
+    function object it is given (a lambda, a generic lambda or a named function object - whatever the library writes) and that object's call operator"""
+    out = {}
+    ops_ = []
+    for nm, f in mod.funcs.items():
+        dm = f.demangled
+        if "::operator()(" not in dm or "boost::multi::" not in dm or "std::for_each" in dm:
+            continue
+        pre = dm[:dm.index("::operator()(")]
+        pre = pre[pre.index("boost::multi::"):]
+        ops_.append((pre, nm))
+    for nm, f in mod.funcs.items():
+        m_ = re.search(r"boost::multi::((?:const_)?subarray)<.*>::serialize<SymAr>\(SymAr&, unsigned int\)$", f.demangled)
+        if not m_:
+            continue
+        for b_ in f.blocks.values():
+            for ins in b_:
+                if ins.op in ("call", "invoke") and ins.callee:
+                    d = mod.demangled.get(ins.callee, ins.callee)
+                    if "std::for_each<" not in d:
+                        continue
+                    for pre, opn in ops_:
+                        if d.endswith(pre + ")") and opn not in out.setdefault(m_.group(1), []):        # the type of for_each's last parameter
+                            out[m_.group(1)].append(opn)
+    return out
+
+
 def run(tier):
     rep = common.Report("C17", tier, "other", "one obligation per (rule, class, D)")
     wd = common.workdir("c17")
@@ -355,7 +383,7 @@ def run(tier):
             bad = None
         if bad is not None:
             # the per-element action
-            lam = [nm for nm, f in mod.funcs.items() if re.search(r"^auto boost::multi::subarray<.*>::serialize<SymAr>\(SymAr&, unsigned int\)::.?\{?'?lambda'?\(Tracked( const)?&\)(#1)?\}?::operator\(\)", f.demangled)]
+            lam = element_actions(mod).get("subarray", [])
             if len(lam) != 1:
                 bad.append("the per-element action of the view's serialize was not found (%d candidates)" % len(lam))
             else:
@@ -378,17 +406,14 @@ def run(tier):
         n += 1
         strs = {m_.group(1): m_.group(2) for m_ in re.finditer(r'^(@[\w.$]+) = .*? constant \[\d+ x i8\] c"([^"]*?)\\00"', text, re.M)}
         names = {}
-        for nm, f in mod.funcs.items():
-            # the call operator of the lambda defined inside a view class's serialize (plain or generic lambda, whatever its return type is spelled as)
-            m_ = re.search(r"boost::multi::((?:const_)?subarray)<.*>::serialize<SymAr>\(SymAr&, unsigned int\)::.?\{?'?lambda'?\(.*\)\W*::operator\(\)", f.demangled)
-            if not m_ or "std::for_each" in f.demangled:
-                continue
-            # the string constants the per-element action passes on (its make_nvp name): read off the function's own instructions
-            for b_ in f.blocks.values():
-                for ins in b_:
-                    for g in re.findall(r"@\.str(?:\.\d+)?", ins.text):
-                        if g in strs:
-                            names.setdefault(m_.group(1), set()).add(strs[g])
+        for cls_, fns_ in element_actions(mod).items():
+            for fn_ in fns_:
+                # the string constants the per-element action passes on (its make_nvp name): read off the function's own instructions
+                for b_ in mod.funcs[fn_].blocks.values():
+                    for ins in b_:
+                        for g in re.findall(r"@\.str(?:\.\d+)?", ins.text):
+                            if g in strs:
+                                names.setdefault(cls_, set()).add(strs[g])
         key = "R17.names@views"
         allnames = set().union(*names.values()) if names else set()
         if os.environ.get("VERIF_DEBUG"):
